@@ -80,3 +80,9 @@ impl<'de> serde::Deserialize<'de> for Marker {
 		}
 	}
 }
+
+/// text cut at a fixed byte offset (C09.R8): panics inside a multi-byte character
+pub fn head_of(msg: &str) -> &str {
+	let (head, _rest) = msg.split_at(1024);
+	head
+}
